@@ -459,6 +459,10 @@ type PerRequest struct {
 	// Finish is called again on the same engine. Reset by Request. FinishRefusals counts the refusals seen.
 	RefuseFinishNext bool
 	FinishRefusals   int
+	// AlternateHandles: instead of a new store handle per request, two long-lived handles serve the requests in turn
+	AlternateHandles bool
+	pool             [2]db.Db
+	nreq             int
 }
 
 func NewPerRequest(a *App, cfg Config, b *Backend) *PerRequest {
@@ -476,8 +480,18 @@ func (d *PerRequest) Request(input []byte) *Obs {
 	useShared := d.Shared != nil && (d.Shared.Mode == "flush" || d.Shared.seen[d.Cfg.SessionId])
 	var store db.Db
 	var err error
+	pooled := false
 	if useShared && d.Shared.store != nil {
 		store = d.Shared.store
+	} else if d.AlternateHandles && d.B.Kind != "mem" && d.Shared == nil {
+		// two workers, each with a store handle that lives as long as the worker: consecutive requests of the session
+		// go to them in turn
+		k := d.nreq % 2
+		d.nreq++
+		if d.pool[k] == nil {
+			d.pool[k], err = d.B.Handle()
+		}
+		store, pooled = d.pool[k], true
 	} else {
 		store, err = d.B.Handle()
 	}
@@ -591,7 +605,7 @@ func (d *PerRequest) Request(input []byte) *Obs {
 			}
 		})
 	}
-	if d.B.Kind != "mem" && !useShared {
+	if d.B.Kind != "mem" && !useShared && !pooled {
 		vk.Guard(func() { store.Close(ctx) })
 	}
 	if !d.SkipStoredRead {
@@ -661,7 +675,13 @@ func (d *PerRequest) Mutate(f func(st *state.State, ca *cache.Cache)) error {
 	return rerr
 }
 
-func (d *PerRequest) Close() {}
+func (d *PerRequest) Close() {
+	for _, h := range d.pool {
+		if h != nil {
+			vk.Guard(func() { h.Close(context.Background()) })
+		}
+	}
+}
 
 // SortedKeys is a helper for deterministic output.
 func SortedKeys(m map[string]string) []string {
